@@ -312,9 +312,79 @@ func c05Expiry(ev *vlib.Evidence, idx int) {
 	}
 }
 
+// c05ManyIdentities: an accepted nonce that is minutes old (still fresh) must
+// stay refused on replay however many other identities use the store meanwhile.
+func c05ManyIdentities(ev *vlib.Evidence, driver string, idx int) {
+	s, cleanup, err := vlib.OpenStore(driver)
+	if err != nil {
+		panic(err)
+	}
+	defer cleanup()
+	r := vlib.Rand("C05-many-"+driver, idx)
+	victims := map[string]int64{}
+	for i := 0; i < 5; i++ {
+		id := fmt.Sprintf("victim-%d", i)
+		age := time.Duration(vlib.Pick(r, 3, 5, 9, 13)) * time.Minute
+		n := time.Now().Add(-age).UnixNano()
+		if err := s.CheckAndSaveNonce(id, n); err != nil {
+			ev.Violate("many:"+driver+":fresh-old-nonce-refused", map[string]interface{}{"age": age.String(), "err": err.Error()})
+			return
+		}
+		victims[id] = n
+	}
+	others := 1100 + r.Intn(1500)
+	for i := 0; i < others; i++ {
+		s.CheckAndSaveNonce(fmt.Sprintf("other-%d", i), time.Now().UnixNano())
+	}
+	ev.Case(fmt.Sprintf("many-identities %s others=%d idx=%d", driver, others, idx), true)
+	ev.Count("many-identities-scenarios", 1)
+	for id, n := range victims {
+		if err := s.CheckAndSaveNonce(id, n); err == nil {
+			ev.Violate("many:"+driver+":replay-accepted-after-other-identities-used-the-store", map[string]interface{}{"identity": id, "other_identities": others})
+			return
+		}
+		if err := s.CheckAndSaveNonce(id, n-1); err == nil {
+			ev.Violate("many:"+driver+":lower-nonce-accepted-after-other-identities-used-the-store", map[string]interface{}{"identity": id, "other_identities": others})
+			return
+		}
+	}
+}
+
+// c05Respelled: a captured request replayed under another spelling of the
+// same identity (hex case, 0x prefix) is not a new request.
+func c05Respelled(ev *vlib.Evidence, driver string, idx int) {
+	lw, err := authWorld(driver, idx)
+	if err != nil {
+		return // C04 reports refused reference-signed sessions
+	}
+	defer lw.w.Close()
+	w := lw.w
+	id := vlib.NewIdentity("c05respell", idx)
+	req := vlib.ConnectReq(false, "geth", "", "")
+	n := w.NextNonce(id.NodeID)
+	sig := vlib.RefSign(id.Key, "vipnode_connect", id.NodeID, n, req)
+	first := guardedCall(w.Local, "vipnode_connect", sig, id.NodeID, n, req)
+	ev.Case(fmt.Sprintf("respelled %s %d", driver, idx), true)
+	ev.Count("respelled-replays", 3)
+	if !first.Accepted {
+		ev.Violate("respelled:setup", map[string]interface{}{"err": fmt.Sprint(first.Err)})
+		return
+	}
+	honoured := 1
+	for _, spelling := range []string{strings.ToUpper(id.NodeID), "0x" + id.NodeID, "0X" + strings.ToUpper(id.NodeID)} {
+		out := guardedCall(w.Local, "vipnode_connect", sig, spelling, n, req)
+		if out.Accepted && out.Panic == "" {
+			honoured++
+		}
+	}
+	if honoured > 1 {
+		ev.Violate("respelled:"+driver+":captured-request-honoured-again-under-another-spelling", map[string]interface{}{"times_honoured": honoured})
+	}
+}
+
 func TestC05(t *testing.T) {
 	ev := vlib.NewEvidence("C05", "exploration",
-		"(1) sequential signed RPCs (vipnode_update, pool_addNode) for 3 identities with nonces equal/lower/higher than the identity's high-water mark, 14 min old (fresh) and 16 min old (stale), oracle = per-identity high-water model; (2) 2..16 goroutines race copies of the same signed request (and 1-3 distinct nonces, 1-2 identities) over Local and separate Remote connections, history recorded at the client boundary and checked with porcupine plus 'accepted copies <= 1'; (3) replay across close/reopen of an on-disk badger store; (4) freshness window shortened by the verif hook: replay of a future-dated nonce after the mark's TTL; non-trivial: sequential >= 2 acceptances, concurrent >= 1 overlapping pair; distinct = distinct traces/configurations")
+		"(1) sequential signed RPCs (vipnode_update, pool_addNode) for 3 identities with nonces equal/lower/higher than the identity's high-water mark, 14 min old (fresh) and 16 min old (stale), oracle = per-identity high-water model; (2) 2..16 goroutines race copies of the same signed request (and 1-3 distinct nonces, 1-2 identities) over Local and separate Remote connections, history recorded at the client boundary and checked with porcupine plus 'accepted copies <= 1'; (2b) replay of minutes-old accepted nonces after >1000 other identities used the store; a captured request replayed under other spellings of the identity; (3) replay across close/reopen of an on-disk badger store; (4) freshness window shortened by the verif hook: replay of a future-dated nonce after the mark's TTL; non-trivial: sequential >= 2 acceptances, concurrent >= 1 overlapping pair; distinct = distinct traces/configurations")
 	for _, driver := range vlib.Drivers() {
 		for i := 0; i < vlib.Scale(60, 1500); i++ {
 			c05Sequential(ev, driver, i)
@@ -325,6 +395,14 @@ func TestC05(t *testing.T) {
 	}
 	for i := 0; i < vlib.Scale(4, 40); i++ {
 		c05Reopen(ev, i)
+	}
+	for _, driver := range vlib.Drivers() {
+		for i := 0; i < vlib.Scale(2, 20); i++ {
+			c05ManyIdentities(ev, driver, i)
+		}
+		for i := 0; i < vlib.Scale(10, 200); i++ {
+			c05Respelled(ev, driver, i)
+		}
 	}
 	var wg sync.WaitGroup
 	for i := 0; i < vlib.Scale(6, 30); i++ {
